@@ -109,11 +109,16 @@ def run_cli(args, cwd, env=None, timeout=600, prog="nanoemoji.nanoemoji"):
     return p.returncode, p.stdout + p.stderr
 
 
-def build_cli(overrides, sources, via="flag", cps_from_names=True):
+def build_cli(overrides, sources, via="flag", cps_from_names=True, before=None, companion=None):
     """The same build through the real command line: the options are given as flags (via="flag") or in a config
     file (via="file"), the sources as files; every step (config written for the workers, glyphmap, fea, picosvg,
     parts, write_font) is the one ninja runs.  Returns (reloaded TTFont, intended FontConfig, picos, bytes) like
-    build_inprocess, so that the same oracles apply; raises RuntimeError(log) if the command fails."""
+    build_inprocess, so that the same oracles apply; raises RuntimeError(log) if the command fails.
+
+    before = (overrides0, sources0 or None): an earlier invocation in the same build directory (a re-run: the font
+    asked for now must not be the one left over).  companion = (overrides1, sources1): another configuration built by
+    the same invocation, listed first, whose sources live in another directory under the same file names, or (sources1 = None) which uses
+    the very same files (options by file then)."""
     import toml
     from fontTools import ttLib
 
@@ -129,34 +134,58 @@ def build_cli(overrides, sources, via="flag", cps_from_names=True):
             Image.new("RGBA", (1, 1)).save(b, format="PNG")
             intended_sources = [tuple(s_[:3]) + (b.getvalue(),) for s_ in sources]
         cfg, inputs, picos = make_config(tmp / "intended", overrides, intended_sources, cps_from_names)
-        srcdir = tmp / "src"
-        srcdir.mkdir()
-        paths = []
-        for s_ in sources:
-            p = srcdir / s_[0]
-            p.write_text(s_[1])
-            paths.append(p)
+
         def flagval(v):
             if hasattr(v, "_fields") and len(v) == 6:  # Affine2D
                 return "matrix(" + " ".join(repr(float(x)) for x in v) + ")"
             return str(v)
 
-        args = ["--build_dir", tmp / "build"]
-        opts = {k: v for k, v in overrides.items() if v is not None}
-        if via == "flag":
-            for k, v in opts.items():
-                if isinstance(v, bool):
-                    args.append(f"--{k}" if v else f"--no{k}")
-                else:
-                    args += [f"--{k}", flagval(v)]
-            args += [str(p) for p in paths]
-        else:
-            body = {k: (flagval(v) if not isinstance(v, (bool, int, float, str)) else v) for k, v in opts.items()}
-            body.setdefault("output_file", "Font.ttf")
-            text = toml.dumps(body) + '[axis.wght]\nname = "Weight"\ndefault = 400\n[master.regular]\nstyle_name = "Regular"\nsrcs = ["src/*.svg"]\n[master.regular.position]\nwght = 400\n'
-            (tmp / "font.toml").write_text(text)
-            args.append(tmp / "font.toml")
-        rc, out = run_cli(args, cwd=tmp)
+        def write_sources(dirname, srcs):
+            d = tmp / dirname
+            d.mkdir(exist_ok=True)
+            for old in d.glob("*.svg"):
+                old.unlink()
+            out = []
+            for s_ in srcs:
+                (d / s_[0]).write_text(s_[1])
+                out.append(d / s_[0])
+            return out
+
+        def write_toml(name, over, dirname, default_output="Font.ttf"):
+            body = {k: (flagval(v) if not isinstance(v, (bool, int, float, str)) else v) for k, v in over.items() if v is not None}
+            body.setdefault("output_file", default_output)
+            text = toml.dumps(body) + f'[axis.wght]\nname = "Weight"\ndefault = 400\n[master.regular]\nstyle_name = "Regular"\nsrcs = ["{dirname}/*.svg"]\n[master.regular.position]\nwght = 400\n'
+            (tmp / name).write_text(text)
+            return tmp / name
+
+        def invocation(over, srcs, how):
+            paths = write_sources("src", srcs)
+            args = ["--build_dir", tmp / "build"]
+            opts = {k: v for k, v in over.items() if v is not None}
+            if how == "flag":
+                for k, v in opts.items():
+                    if isinstance(v, bool):
+                        args.append(f"--{k}" if v else f"--no{k}")
+                    else:
+                        args += [f"--{k}", flagval(v)]
+                args += [str(p) for p in paths]
+            else:
+                if companion is not None:
+                    # sources of its own under the same file names, or (None) the very same files
+                    other_dir = "src" if companion[1] is None else "other"
+                    if companion[1] is not None:
+                        write_sources("other", companion[1])
+                    args.append(write_toml("other.toml", dict(companion[0], output_file="Other" + Path(over.get("output_file", "Font.ttf")).suffix), other_dir))
+                args.append(write_toml("font.toml", opts, "src"))
+            return run_cli(args, cwd=tmp)
+
+        if companion is not None:
+            via = "file"
+        if before is not None:
+            rc0, out0 = invocation(before[0], before[1] or sources, via)
+            if rc0 != 0:
+                raise RuntimeError(f"the earlier command line build failed (exit {rc0}): " + out0[-1500:])
+        rc, out = invocation(overrides, sources, via)
         name = overrides.get("output_file", "Font.ttf")
         f = tmp / "build" / name
         if rc != 0 or not f.is_file():
